@@ -175,16 +175,24 @@ PROPS = {
                 "clunk, open) parked in the implementation at the disconnect, optionally a partial frame before it; released in "
                 "every order afterwards. Oracle: ConnClosed once; every valid fid reported destroyed exactly once; goroutine census "
                 "(recv, send, process, Respond) back to the bystander's two; bystander still served and untouched. "
-                "non-trivial = distinct scenarios",
+                "Fid-table schedules: requests parked at the door of retain, between DecRef's two regions and before the FidDestroy "
+                "call while the client disconnects (before and after Conn.close returned), a request using a fid whose Tclunk has "
+                "dropped the last reference with the number reused afterwards, bursts of pipelined walks/stats/clunks; every region of "
+                "the fid table is logged from inside its lock and replayed on G9.FidLife; at the end the model state must be quiescent "
+                "and FidDestroy seen exactly once per fid object. non-trivial = distinct scenarios",
         "modelled": ["modelled, not verified: goroutines as program counters; each event is one lock-protected region or one channel "
                      "operation of srv_conn.go/srv_srv.go/srv_fcall.go; Go mutexes, channels (FIFO) and the scheduler are trusted; "
                      "what a reply contains is M3's business (C04/C05/C12); the model allows nested Respond calls to interleave with "
-                     "their caller (a superset of the code's schedules)"] + ["modelled, not verified: ConnClosed/FidDestroy bookkeeping and the goroutine/descriptor census are "
-                     "observed on the implementation only"],
+                     "their caller (a superset of the code's schedules)"] + ["modelled, not verified: ConnClosed and the goroutine/descriptor census are "
+                     "observed on the implementation only; the fid table is G9.FidLife: one event per lock-protected region of FidNew/FidGet/"
+                     "retain/IncRef/DecRef/destroy/Conn.close, requests are represented only by the references they own"],
         "assumptions": ["G9.SrvLife mirrors Conn.recv/send/close, SrvReq.process/Respond/Flush and Srv.flush: every run logs the code's "
                         "lock-protected regions from inside their locks and the Lean acceptor (G9.Driver.Life) must accept the log, comparing "
                         "status bits, flush targets, nextreq/flushreqs and the take order with the model's state",
-                        "the implementation answers or flushes only requests it was handed (harness implementation does)"],
+                        "the implementation answers or flushes only requests it was handed (harness implementation does)",
+                        "G9.FidLife mirrors the fid table: the acceptor G9.Driver.FidLife must accept the log of every session, comparing "
+                        "reference counts, pending/destroyed flags, table lookups and Conn.close's copy with the model's state; "
+                        "request discipline (a request releases what it owns, the table's reference is released once per fid) is M3's theorem, assumed here"],
     },
     "C19": {
         "race": True,
